@@ -442,7 +442,8 @@ func startDaemon() *daemon {
 	if _, err := os.Stat(bin); err != nil {
 		lib.Fatalf("nsqlookupd binary not found at %s", bin)
 	}
-	cmd := exec.Command(bin, "-tcp-address", "127.0.0.1:0", "-http-address", "127.0.0.1:0", "-broadcast-address", "127.0.0.1")
+	host := loopbackHost()
+	cmd := exec.Command(bin, "-tcp-address", host+":0", "-http-address", host+":0", "-broadcast-address", host)
 	cmd.SysProcAttr = &syscall.SysProcAttr{Pdeathsig: syscall.SIGKILL} // no orphan daemon if the driver dies
 	stderr, err := cmd.StderrPipe()
 	if err != nil {
